@@ -69,6 +69,7 @@ def judge_case(case):
         if type(rt) is not RunningOrder or rt.completed:
             fail('roundtrip-of-open-ro', f'open running order reads back as {type(rt).__name__} completed={rt.completed}')
         content_before = canon(ET.fromstring(str(ro)).find('roCreate'))
+        inside_before = len(list(ET.fromstring(str(ro)).find('roCreate').iter('mosromgrmeta')))
         env_before = [canon(c) for c in ET.fromstring(str(ro)) if c.tag != 'roCreate']
         e = _merge(ro, case['delete'])
         if e is not None:
@@ -85,7 +86,7 @@ def judge_case(case):
         sent = ET.fromstring(case['delete']).find('roDelete')
         if len(metas) != 1 or not any(canon(x) == canon(sent) for x in metas[0]):
             fail('roDelete-not-recorded', f'{len(metas)} mosromgrmeta children; the sent roDelete is not recorded intact')
-        if root.find('roCreate').find('.//mosromgrmeta') is not None or root.find('roCreate').find('.//roDelete') is not None:
+        if len(list(root.find('roCreate').iter('mosromgrmeta'))) != inside_before:
             fail('record-inside-roCreate', 'completion record found inside roCreate')
         done = str(ro)
         rt = MosFile.from_string(done)
